@@ -132,7 +132,10 @@ def work(idx, chunk, seed, budget):
                 part.violation({"kind": "alias_listed"}, dict(wit, names=extra_alias[:10]), "")
                 ok = False
             if base_names and not (set(names) & base_names):
-                part.count("base_unit_itself_not_listed")
+                # the base unit is itself a non-alias unit of exactly this dimensionality
+                part.violation({"kind": "base_unit_missing_from_units_for"}, dict(wit, base=sorted(base_names), dims=dk),
+                               "the base unit of this dimensionality is not listed")
+                ok = False
             # each under its own category
             for cat, n in listed:
                 cid = reg.categories.get(n)
